@@ -212,6 +212,22 @@ fn near_valid(rng: &mut Rng) -> (String, Option<&'static str>) {
         let c = cyclic[rng.below(cyclic.len())];
         return (format!("{}start :: fn do\nend\n", c), Some("cyclic_type_through_assignment"));
     }
+    // an error whose source line holds multi-byte characters in front of (or inside) the reported span:
+    // rendering reads the file again and underlines by column (materialised on disk by the caller)
+    if rng.chance(1, 8) {
+        let pieces = ["å", "ö", "é", "日", "本", "😀", "a", "b", " ", "ß", "€"];
+        let n = 1 + rng.below(14);
+        let lit: String = (0..n).map(|_| pieces[rng.below(pieces.len())]).collect();
+        let line = match rng.below(6) {
+            0 => format!("    x := \"{}\" + 1\n", lit),
+            1 => format!("    x := \"{}\" undefined_q\n", lit),
+            2 => format!("    x := (\"{}\", \"{}\") + 1\n", lit, lit),
+            3 => format!("    print(\"{}\", \"{}\", 1 +)\n", lit, lit),
+            4 => format!("    y := \"{}\"    z := undefined_name_q // {}\n", lit, lit),
+            _ => format!("\tx := \"{}\" - \"{}\" // {}\n", lit, lit, lit),
+        };
+        return (format!("start :: fn do\n{}end\n", line), None);
+    }
     // a cyclic structural type that only has to be PRINTED in a diagnostic (no operator rule recurses
     // into it): must give a rendered error, not an abort - not a hazard case
     let cyclic_printed: &[&str] = &[
@@ -505,7 +521,11 @@ impl Check for C07 {
         }
         judge(st, index, family, &files, "main.sy", no_std, hazard.clone());
         st.nontrivial(text_hash);
-        if index % 10 == 3 || index % 97 == 8 {
+        let non_ascii = files.values().any(|t| !t.is_ascii());
+        if index % 10 == 3 || index % 97 == 8 || (family == "near-valid-program" && non_ascii) {
+            if non_ascii {
+                st.count("rendered_from_disk_with_non_ascii_source");
+            }
             judge_on_disk(st, index, family, &files, hazard.clone());
         }
         if index < 12 {
